@@ -86,6 +86,9 @@ func (e *Exec) loadPtr(fr *frame, st *State, p Val, t types.Type, pos token.Pos)
 	if p.Addr != nil {
 		return e.loadAddr(fr, st, p.Addr, pos)
 	}
+	if g, ok := e.globalByRef[p.T]; ok && e.constGlobal(g) {
+		return e.constGlobalVal(g, t)
+	}
 	e.oblige(fr, st, "nilptr", "nil pointer dereference", pos, not(eq(p.T, "0")))
 	s := e.ctx.sortOf(t)
 	switch {
@@ -235,10 +238,12 @@ func (e *Exec) frameCheck(fr *frame, st *State, heap, ref string, pos token.Pos)
 
 // inFrame: the object was allocated by this call, or the location is listed.
 func (e *Exec) inFrame(heap, ref string) string {
-	alts := []string{le(e.nextRef0, app("root", ref))}
+	alts := []string{le(e.nextRef0, app("root", ref)), eq(ref, "0")}
 	for _, m := range e.modset[heap] {
 		if m.all {
 			alts = append(alts, m.cond)
+		} else if m.pred != nil {
+			alts = append(alts, and(m.cond, m.pred(ref)))
 		} else {
 			alts = append(alts, and(m.cond, eq(ref, m.ref)))
 		}
@@ -253,4 +258,17 @@ var _ = ssa.NaiveForm
 func (e *Exec) lockHeap(st *State) string {
 	e.regHeap("G$lock", arraySort(sInt, sInt), nil, 'G', "")
 	return e.heapTerm(st, "G$lock")
+}
+
+// constGlobalVal: the (constant) value of a global that only its package
+// initialiser assigns.
+func (e *Exec) constGlobalVal(g *ssa.Global, t types.Type) Val {
+	name := "globval$" + sanitize(g.Pkg.Pkg.Name()+"."+g.Name())
+	s := e.ctx.sortOf(t)
+	if _, ok := e.ctx.declared[name]; !ok {
+		e.ctx.declare(name, s)
+		e.ctx.assume(e.valueFacts(name, t, e.nextRef0))
+		e.trust("global " + g.Pkg.Pkg.Name() + "." + g.Name() + " is assigned only by its package initialiser (checked syntactically): its value is a constant")
+	}
+	return Val{T: name, S: s, GoT: t}
 }
